@@ -43,10 +43,13 @@ class Gen:
         p = self.r.choice(MODEL_PROTOS if self.modelled else ALL_PROTOS)
         self.socks[s] = p
         self.ops.append(f"open {s} {p}")
+        # every subset of the three notifications: all three (with / without close-in-ADD_PRE) half of the
+        # time, a proper non-empty subset (1..6: a socket whose only callback is REM_POST, ADD_POST, ...)
+        # 36 %, none at all 8 %
         k = self.r.below(100)
-        if k < 60:
+        if k < 42:
             self.ops.append(f"notify {s} 7")
-        elif k < 78:
+        elif k < 56:
             self.ops.append(f"notify {s} 7 close_in_pre")
         elif k < 92:
             self.ops.append(f"notify {s} {self.r.choice([1, 2, 3, 4, 5, 6])}" + (" close_in_pre" if self.r.chance(1, 4) else ""))
@@ -119,11 +122,12 @@ class Gen:
         if k < 78 and self.eps:
             e = r.below(len(self.eps))
             return f"setopt_ep {e} reconnect-time-{r.choice(['min', 'max'])} {self.rec() if r.chance(19, 20) else -2}"
-        if k < 93:
+        if k < 90:
             return f"advance {r.choice(ADV)}"
         if k < 95:
+            # the registration changes while pipes live: any subset of the three notifications
             s = self.anysock()
-            return f"notify {s} {r.choice([0, 7, 7, 7, 5, 6])}" + (" close_in_pre" if r.chance(1, 3) else "")
+            return f"notify {s} {r.choice([0, 1, 2, 3, 4, 5, 6, 7, 7, 7])}" + (" close_in_pre" if r.chance(1, 3) else "")
         if k < 97:
             return "probe"
         return None
@@ -145,7 +149,7 @@ class Gen:
         while len(self.ops) < n:
             if self.racing and r.chance(1, 6) and (self.socks or self.eps):
                 a = self.closer()
-                b = self.simple([3, 10, 20, 25, 30, 35, 42, 48, 54, 58, 61, 65, 70, 75]) if r.chance(4, 5) else self.closer()
+                b = self.simple([3, 10, 20, 25, 30, 35, 42, 48, 54, 58, 61, 65, 70, 75, 94]) if r.chance(4, 5) else self.closer()
                 if b and b.startswith("dial") and b.endswith(" 0"):
                     b = b[:-1] + "1"   # a blocking dial would block the main harness thread
                 if a and b:
@@ -442,7 +446,8 @@ def check(PROP, tier, seed, replay):
            "theorems": st.discharged, "axioms": st.axioms, "broken": st.broken,
            "evaluations": res.runs, "distinct_nontrivial": len({tuple(o) for o in allops if len(o) > 6}),
            "rule": "lifecycle scenarios on one or two sockets (pair0/pull/rep; judge-only cases also push/req): dial (blocking / non-blocking), listen, "
-                   "connect results ok / wrong peer / error, notification masks with and without close-in-ADD_PRE, pipe close / transport loss, "
+                   "connect results ok / wrong peer / error, every subset of the three notifications registered (with and without close-in-ADD_PRE) "
+                   "and changed while pipes live (also by a notify racing with a close), pipe close / transport loss, "
                    "endpoint / context / socket close in all orders (also two concurrent closes; thorough: a close racing with another op on a "
                    "second thread at scheduler-chosen points), reconnect min/max 0..3000 (some huge), virtual-time advances, probes of old handles; "
                    f"from splitmix64(seed,LIFE,tier,i), each under {len(scheds)} schedule seeds; distinct = distinct op lists longer than 6",
